@@ -98,6 +98,115 @@ func {T}.WriteByte
   ensures [C19.write-new] {r}.buf[len({r}.buf) - 1] == c
   ensures [C19.write-array] grown({r}.buf, old({r}.buf))
   ensures [C19.write-off] implies(old({r}.off) == 0, {r}.off == 0)
+
+func {T}.WriteRune
+  requires {r} != nil && 0 <= {r}.off && {r}.off <= len({r}.buf)
+  assigns {r}.buf, {r}.off, {r}.lastRead, {r}.buf[:]
+  ensures [C19.rune-result] err == nil && n == len({r}.buf) - {r}.off - old(len({r}.buf) - {r}.off) && 0 <= {r}.off
+  ensures [C19.rune-ascii] implies(0 <= r && r < 128, n == 1 && {r}.buf[len({r}.buf) - 1] == r)
+  ensures [C19.rune-multi] implies(!(0 <= r && r < 128), n == uf("utf8len", r) && forall(i, 0, n, {r}.buf[len({r}.buf) - n + i] == uf("utf8byte", r, i)))
+  ensures [C19.write-keep] forall(i, 0, old(len({r}.buf) - {r}.off), {r}.buf[{r}.off + i] == old({r}.buf[{r}.off + i]))
+  ensures [C19.write-off] implies(old({r}.off) == 0, {r}.off == 0)
+  ensures [C19.rune-lastread] {r}.lastRead == opInvalid
+
+func {T}.Read
+  requires {r} != nil && 0 <= {r}.off && {r}.off <= len({r}.buf)
+  requires [C19.eof] !isnil(io.EOF)
+  requires [C19.noalias] !sameobject(p, {r}.buf) || len(p) == 0
+  assigns {r}.buf, {r}.off, {r}.lastRead, p[:]
+  ensures [C19.read-empty] implies(old(len({r}.buf) <= {r}.off), n == 0 && len({r}.buf) == 0 && {r}.off == 0 && {r}.lastRead == opInvalid && implies(len(p) == 0, err == nil) && implies(len(p) != 0, err == io.EOF))
+  ensures [C19.read-n] implies(old(len({r}.buf) > {r}.off), err == nil && n == ite(len(p) <= old(len({r}.buf) - {r}.off), len(p), old(len({r}.buf) - {r}.off)) && {r}.off == old({r}.off) + n && {r}.buf == old({r}.buf))
+  ensures [C19.read-data] implies(old(len({r}.buf) > {r}.off), forall(i, 0, n, p[i] == old({r}.buf[{r}.off + i])))
+  ensures [C19.read-lastread] implies(old(len({r}.buf) > {r}.off), {r}.lastRead == ite(n > 0, opRead, opInvalid))
+
+func {T}.Next
+  requires {r} != nil && 0 <= {r}.off && {r}.off <= len({r}.buf)
+  assigns {r}.off, {r}.lastRead
+  panics [C19.next-range] when n < 0
+  ensures [C19.next] len(result) == ite(n <= old(len({r}.buf) - {r}.off), n, old(len({r}.buf) - {r}.off)) && {r}.off == old({r}.off) + len(result)
+  ensures [C19.next-data] sameobject(result, {r}.buf) && forall(i, 0, len(result), result[i] == {r}.buf[old({r}.off) + i])
+  ensures [C19.next-lastread] {r}.lastRead == ite(len(result) > 0, opRead, opInvalid)
+
+func {T}.ReadByte
+  requires {r} != nil && 0 <= {r}.off && {r}.off <= len({r}.buf)
+  requires [C19.eof] !isnil(io.EOF)
+  assigns {r}.buf, {r}.off, {r}.lastRead
+  ensures [C19.readbyte-empty] implies(old(len({r}.buf) <= {r}.off), result0 == 0 && result1 == io.EOF && len({r}.buf) == 0 && {r}.off == 0 && {r}.lastRead == opInvalid)
+  ensures [C19.readbyte] implies(old(len({r}.buf) > {r}.off), result1 == nil && result0 == old({r}.buf[{r}.off]) && {r}.off == old({r}.off) + 1 && {r}.lastRead == opRead && {r}.buf == old({r}.buf))
+
+func {T}.UnreadByte
+  requires {r} != nil
+  assigns {r}.off, {r}.lastRead
+  ensures [C19.unreadbyte-err] implies(old({r}.lastRead) == opInvalid, result == errUnreadByte && {r}.off == old({r}.off) && {r}.lastRead == opInvalid)
+  ensures [C19.unreadbyte] implies(old({r}.lastRead) != opInvalid, result == nil && {r}.lastRead == opInvalid && {r}.off == ite(old({r}.off) > 0, old({r}.off) - 1, old({r}.off)))
+
+func {T}.UnreadRune
+  requires {r} != nil
+  assigns {r}.off, {r}.lastRead
+  ensures [C19.unreadrune-err] implies(old({r}.lastRead) <= opInvalid, result != nil && {r}.off == old({r}.off) && {r}.lastRead == old({r}.lastRead))
+  ensures [C19.unreadrune] implies(old({r}.lastRead) > opInvalid, result == nil && {r}.lastRead == opInvalid && {r}.off == ite(old({r}.off) >= old({r}.lastRead), old({r}.off) - old({r}.lastRead), old({r}.off)))
+
+func {T}.ReadRune
+  requires {r} != nil && 0 <= {r}.off && {r}.off <= len({r}.buf)
+  requires [C19.eof] !isnil(io.EOF)
+  assigns {r}.buf, {r}.off, {r}.lastRead
+  ensures [C19.readrune-empty] implies(old(len({r}.buf) <= {r}.off), r == 0 && size == 0 && err == io.EOF && len({r}.buf) == 0 && {r}.off == 0 && {r}.lastRead == opInvalid)
+  ensures [C19.readrune-ascii] implies(old(len({r}.buf) > {r}.off) && old({r}.buf[{r}.off]) < 128, r == old({r}.buf[{r}.off]) && size == 1 && err == nil && {r}.off == old({r}.off) + 1 && {r}.lastRead == opReadRune1)
+  ensures [C19.readrune-multi] implies(old(len({r}.buf) > {r}.off) && old({r}.buf[{r}.off]) >= 128, err == nil && r == old(uf("utf8dec", contentid({r}.buf[{r}.off:]))) && size == old(uf("utf8declen", contentid({r}.buf[{r}.off:]))) && {r}.off == old({r}.off) + size && {r}.lastRead == size)
+
+func {T}.readSlice
+  requires {r} != nil && 0 <= {r}.off && {r}.off <= len({r}.buf)
+  requires [C19.eof] !isnil(io.EOF)
+  assigns {r}.off, {r}.lastRead
+  ensures [C19.readslice] samearray(line, old({r}.buf[{r}.off:])) && {r}.off == old({r}.off) + len(line) && {r}.lastRead == opRead
+  ensures [C19.readslice-found] implies(err == nil, len(line) >= 1 && line[len(line)-1] == delim && forall(i, 0, len(line)-1, line[i] != delim))
+  ensures [C19.readslice-eof] implies(err != nil, err == io.EOF && {r}.off == len({r}.buf) && forall(i, 0, len(line), line[i] != delim))
+  ensures [C19.readslice-data] forall(i, 0, len(line), line[i] == {r}.buf[old({r}.off) + i])
+
+func {T}.ReadBytes
+  requires {r} != nil && 0 <= {r}.off && {r}.off <= len({r}.buf)
+  requires [C19.eof] !isnil(io.EOF)
+  assigns {r}.off, {r}.lastRead
+  ensures [C19.readbytes] {r}.off == old({r}.off) + len(line) && {r}.lastRead == opRead
+  ensures [C19.readbytes-found] implies(err == nil, len(line) >= 1 && line[len(line)-1] == delim && forall(i, 0, len(line)-1, line[i] != delim))
+  ensures [C19.readbytes-eof] implies(err != nil, err == io.EOF && {r}.off == len({r}.buf) && forall(i, 0, len(line), line[i] != delim))
+  ensures [C19.readbytes-data] forall(i, 0, len(line), line[i] == {r}.buf[old({r}.off) + i])
+  ensures [C19.readbytes-copy] len(line) == 0 || fresh(line)
+
+func {T}.ReadString
+  requires {r} != nil && 0 <= {r}.off && {r}.off <= len({r}.buf)
+  requires [C19.eof] !isnil(io.EOF)
+  assigns {r}.off, {r}.lastRead
+  ensures [C19.readstring] {r}.off == old({r}.off) + len(line) && {r}.lastRead == opRead
+  ensures [C19.readstring-eof] implies(err != nil, err == io.EOF && {r}.off == len({r}.buf))
+  ensures [C19.readstring-data] contentid(line) == old(contentid({r}.buf[{r}.off:{r}.off+len(line)]))
+
+func {T}.String
+  requires {r} == nil || (0 <= {r}.off && {r}.off <= len({r}.buf))
+  ensures [C19.string-nil] implies({r} == nil, result == "<nil>")
+  ensures [C19.string] implies({r} != nil && 0 <= {r}.off && {r}.off <= len({r}.buf), contentid(result) == contentid({r}.buf[{r}.off:]))
+
+func {T}.WriteTo
+  requires {r} != nil && 0 <= {r}.off && {r}.off <= len({r}.buf)
+  requires !isnil(w) && !isnil(io.ErrShortWrite)
+  assigns everything
+  maypanic
+  ensures [C19.writeto-empty] implies(old(len({r}.buf) <= {r}.off), n == 0 && err == nil && len({r}.buf) == 0 && {r}.off == 0 && ghost.ioN == old(ghost.ioN))
+  ensures [C19.writeto-once] implies(old(len({r}.buf) > {r}.off), ghost.ioN == old(ghost.ioN) + 1 && ghost.ioArg == old(ident({r}.buf[{r}.off:])) && ghost.ioDest == ident(w))
+  ensures [C19.writeto-result] implies(old(len({r}.buf) > {r}.off), n == ghost.ioRet && implies(!isnil(ghost.ioErr), err == ghost.ioErr) && implies(isnil(ghost.ioErr) && n != old(len({r}.buf) - {r}.off), err == io.ErrShortWrite) && implies(isnil(ghost.ioErr) && n == old(len({r}.buf) - {r}.off), err == nil && len({r}.buf) == 0 && {r}.off == 0))
+  ensures [C19.writeto-lastread] {r}.lastRead == opInvalid
+
+func {T}.ReadFrom
+  requires {r} != nil && 0 <= {r}.off && {r}.off <= len({r}.buf) && !isnil(r) && !isnil(io.EOF)
+  assigns everything
+  maypanic
+  ensures [C19.readfrom-keep] 0 <= {r}.off && {r}.off <= len({r}.buf) && len({r}.buf) - {r}.off == old(len({r}.buf) - {r}.off) + n && n >= 0
+  ensures [C19.readfrom-err] err != io.EOF && {r}.lastRead == opInvalid
+  loop 1 invariant [C19.readfrom-inv] 0 <= {r}.off && {r}.off <= len({r}.buf) && len({r}.buf) - {r}.off == old(len({r}.buf) - {r}.off) + n && n >= 0 && {r}.lastRead == opInvalid && !isnil(io.EOF)
+
+func {T}.AvailableBuffer
+  requires {r} != nil
+  ensures [C19.availbuf] result == {r}.buf[len({r}.buf):]
 '''
 def inst(T, r, s, G, props):
     out=[]
@@ -116,3 +225,21 @@ print(inst('(*PrintCtx)','s','str','', 'C19 C02'))
 print()
 print("// ---- ... and for the reference implementation: bytes.Buffer of the toolchain's standard library")
 print(inst('bytes::(*Buffer)','b','s','bytes::', 'C19'))
+print("""
+// constructors (different names, same clauses)
+//@ func NewPrintCtx
+//@   props C19
+//@   ensures [C19.new] result != nil && fresh(result) && result.buf == buf && result.off == 0 && result.lastRead == opInvalid
+
+//@ func bytes::NewBuffer
+//@   props C19
+//@   ensures [C19.new] result != nil && fresh(result) && result.buf == buf && result.off == 0 && result.lastRead == opInvalid
+
+//@ func NewPrintCtxString
+//@   props C19
+//@   ensures [C19.newstring] result != nil && fresh(result) && result.off == 0 && result.lastRead == opInvalid && len(result.buf) == len(s) && contentid(result.buf) == contentid(s)
+
+//@ func bytes::NewBufferString
+//@   props C19
+//@   ensures [C19.newstring] result != nil && fresh(result) && result.off == 0 && result.lastRead == opInvalid && len(result.buf) == len(s) && contentid(result.buf) == contentid(s)
+""")
